@@ -85,7 +85,7 @@ var oddChartFiles = []string{"charts/README.md", "charts/notes.txt", "charts/sub
 	"charts/sub.prov", "charts/x/y", "charts/sub/charts/deep/Chart.yaml", "crds/x.yaml", "charts/sub/README", "charts/s", "charts/LICENSE", "templates/NOTES.txt", "templates/sub/deep/t.yaml", "files/a.bin", "README.md", ".helmignore", "requirements.lock", "requirements.yaml", "Chart.lock"}
 
 var oddValues = []string{"sub: null\n", "sub:\n", "sub: ~\n", "sub: 5\n", "sub: [1]\n", "sub: \"str\"\n", "global: null\n", "global: 3\n", "global: [a]\n", "tags: null\n", "tags: 5\n", "tags:\n  t1: null\n",
-	"sub:\n  enabled: null\n", "sub:\n  global: 7\n", "a: null\nsub:\n  exports: null\n", "sub:\n  exports:\n    data: 3\n", "null\n", "[]\n", "3\n", "sub: {}\nglobal: {}\ntags: {}\n"}
+	"sub:\n  enabled: null\n", "sub:\n  global: 7\n", "a: null\nsub:\n  exports: null\n", "sub:\n  exports:\n    data: 3\n", "null\n", "[]\n", "3\n", "sub: {}\nglobal: {}\ntags: {}\n", "al: null\n", "al: 5\n", "al:\n  global: null\n"}
 var oddUserValues = []map[string]any{{"sub": nil}, {"global": nil}, {"tags": nil}, {"sub": "str"}, {"sub": 5.0}, {"sub": []any{1.0}}, {"global": 3.0}, {"tags": "x"}, {"sub": map[string]any{"global": nil}}, {"sub": map[string]any{"enabled": nil}},
 	{"al": nil}, {"sub": map[string]any{"exports": nil}}, {"a": nil, "sub": map[string]any{}}}
 
@@ -111,12 +111,20 @@ func corrCrash(seed uint64, n int, tier string, out string, replay string) {
 		files[target] = mutateBytes(r, files[target])
 		// well-formed but ill-typed values: nulls and scalars where tables are expected (sub-chart sections, global, tags)
 		userVals := map[string]any{"a": 2.0}
-		if i%6 == 1 {
-			files["values.yaml"] = []byte(Pick(r, oddValues))
+		if i%6 == 1 || i%6 == 4 {
+			// these cases keep every file well-formed, so that the chart loads and the values reach the computation
+			files = map[string][]byte{"Chart.yaml": []byte(seedChartYAML), "values.yaml": []byte(seedValues), "values.schema.json": []byte(seedSchema), "templates/a.yaml": []byte(seedTemplate), "templates/_h.tpl": []byte(seedHelpers),
+				"charts/sub/Chart.yaml": []byte(seedSubYAML), "charts/sub/values.yaml": []byte(seedSubValues), "charts/sub/templates/s.yaml": []byte("kind: Service\n")}
 			target = "values.yaml"
-		}
-		if i%6 == 4 {
-			userVals = Pick(r, oddUserValues)
+			if i%6 == 1 {
+				files["values.yaml"] = []byte(Pick(r, oddValues))
+			} else {
+				userVals = Pick(r, oddUserValues)
+			}
+			if i%12 < 6 {
+				// the dependency without its alias: the sub-chart's section is then named after the chart itself
+				files["Chart.yaml"] = []byte(strings.Replace(seedChartYAML, "  alias: al\n", "", 1))
+			}
 		}
 		if r.Chance(5) {
 			raw := make([]byte, r.Intn(200))
